@@ -203,7 +203,7 @@ def _gen_stream(rng):
     style = rng.choice(["crlf", "lf", "cr", "mixed", "mixed", "mixed"])
     eols = {"crlf": ["\r\n"], "lf": ["\n"], "cr": ["\r"], "mixed": ["\r\n", "\n", "\r"]}[style]
     out = ""
-    for _ in range(rng.choice([0, 1, 2, 2, 3, 4, 6])):
+    for _ in range(rng.choice([0, 1, 2, 2, 3, 3, 4, 4, 6])):
         for ln in _gen_block(rng):
             out += ln + rng.choice(eols)
         r = rng.random()
@@ -229,7 +229,11 @@ def _gen_case(rng):
         from_hex = lambda n: b"%x" % n
         wire = b"".join(from_hex(len(c)) + b"\r\n" + c + b"\r\n" for c in chunks) + b"0\r\n\r\n"
         return {"mode": mode, "chunks": [h(c) for c in chunks], "reads": [h(x) for x in K.cut(wire, K._rand_cuts(rng, wire))]}
-    return {"mode": mode, "reads": [h(x) for x in K.cut(body, K._rand_cuts(rng, body))] if body else [h(b"")]}
+    cuts = K._rand_cuts(rng, body) if body else []
+    inside = [i + 1 for i in range(len(body) - 1) if body[i:i + 2] == b"\r\n"]
+    if inside and rng.random() < 0.6:
+        cuts = list(cuts) + [rng.choice(inside)]
+    return {"mode": mode, "reads": [h(x) for x in K.cut(body, cuts)] if body else [h(b"")]}
 
 
 def _chunked_case(chunks, cuts=None):
